@@ -20,6 +20,14 @@ class LoopSpec:
         self.note = note
 
 
+class Any:
+    """Template value 'unconstrained between iterations': havoced with make(ctx) when the template is applied,
+    not compared when it is established (e.g. the cursor of a file the body always seeks absolutely)."""
+
+    def __init__(self, make):
+        self.make = make
+
+
 def _apply(ex, fr, tmpl, node, keep=()):
     for a in tmpl.get("__assume__", []):
         ex.ctx.add_pc(a)
@@ -27,14 +35,21 @@ def _apply(ex, fr, tmpl, node, keep=()):
     for name in mod:
         if name not in tmpl and name not in keep:
             fr.vars[name] = Havoced(name)
+    from .libfile import RFile, WFile
     for name, v in tmpl.items():
         if name.startswith("__"):
             continue
+        if isinstance(v, Any):
+            v = v.make(ex.ctx)
         if "." in name:
             obj, att = name.split(".", 1)
             fr.vars[obj].attrs[att] = v
         else:
-            fr.vars[name] = v
+            cur = fr.vars.get(name)
+            if isinstance(v, (RFile, WFile)) and type(cur) is type(v):
+                cur.__dict__.update(v.__dict__)      # keep the handle's identity (with-blocks, registrations)
+            else:
+                fr.vars[name] = v
 
 
 def _get(fr, name):
@@ -47,15 +62,15 @@ def _get(fr, name):
 def _establish(ex, fr, tmpl, label):
     ctx = ex.ctx
     for name, exp in tmpl.items():
-        if name.startswith("__"):
+        if name.startswith("__") or isinstance(exp, Any):
             continue
         act = _get(fr, name)
         if isinstance(act, Havoced):
-            ctx.oblige(f"{label}.{name}", False, "X", note="variable not bound")
+            ctx.oblige(f"{label}.{name}", False, "P", note="variable not bound")
             continue
-        ctx.oblige(f"{label}.{name}", veq(ctx, act, exp), "X")
+        ctx.oblige(f"{label}.{name}", veq(ctx, act, exp), "P")
     for nm, f in tmpl.get("__assert__", []):
-        ctx.oblige(f"{label}.{nm}", f, "X")
+        ctx.oblige(f"{label}.{nm}", f, "P")
 
 
 def run_for(ex, node, fr, seq, spec, ordn):
